@@ -53,6 +53,13 @@ def open_ro(sc, variant, writable=False):
     mb = {None: None, "4KiB": 4 * env.KIB, "1MiB": 1}[cache]
     mpath = sc.path("meta") if meta else None
     if writable:
+        if flag == "config":
+            # the store is first opened writable from a configuration as well (and that backend stays alive while the
+            # same store is opened read-only from the read-only configuration)
+            wcfg = {"type": "filesystem", "path": sc.path("data")}
+            if mpath:
+                wcfg["metadata_path"] = mpath
+            return StorageBackend.create("filesystem", wcfg)
         return FilesystemStorageBackend(path=sc.path("data"), metadata_path=mpath)
     if flag == "arg":
         return FilesystemStorageBackend(path=sc.path("data"), metadata_path=mpath, memory_cache_mb=mb,
